@@ -58,6 +58,11 @@ type lineChange struct {
 
 func classifyLine(b, a rawLine) []lineChange {
 	var cs []lineChange
+	if b.EOL == "" && a.EOL == "\r\n" && strings.HasSuffix(b.Text, "\r") && a.Text == strings.TrimSuffix(b.Text, "\r") {
+		// the file ended in a lone CR (a partial write cut a CRLF in two); the line break klog adds after it makes
+		// the two bytes read as one CRLF - every byte of the old line is still there
+		return []lineChange{{kind: "eol-added"}}
+	}
 	if b.EOL != a.EOL {
 		if b.EOL == "" && a.EOL != "" {
 			cs = append(cs, lineChange{kind: "eol-added"})
